@@ -2,7 +2,7 @@
    MilliCPUToShares / MilliCPUToQuota and the CFS / shares constants are the definitions
    regenerated from pkg/koordlet/util/system/cgroup.go (coq/Gen). *)
 From Coq Require Import List ZArith Bool Permutation.
-From Verif Require Import C14.Model C14.Spec C14.Proofs C14.Proofs_Conv C14.Proofs_Pod C14.Proofs_Main C14.Proofs_Model C14.Rule C14.Codec C14.Proofs_Codec.
+From Verif Require Import C14.Model C14.Spec C14.Proofs C14.Proofs_Conv C14.Proofs_Pod C14.Proofs_Main C14.Proofs_Model C14.Rule C14.Codec C14.Proofs_Codec C14.Proofs_Rule.
 Import ListNotations.
 Open Scope Z_scope.
 
@@ -89,10 +89,11 @@ Proof. exact only_d10. Qed.
 Print Assumptions c14_only_d10.
 
 (* the same over the wire-level entry points the extracted runner executes: for EVERY integer
-   input the model's own observable passes the decision procedure or has a recorded finding
-   signature (1 = D10, 2 = stale ratio, 3 = both) *)
-Theorem c14_wire_main : forall inp,
-  prop_case inp (run_case inp) = 0 \/ In (finding_sig inp (run_case inp)) [1; 2; 3].
+   input within the generator's guard (two successive rule updates are not neighbouring
+   two-decimal values, so the rule holds the ratio the node advertises) the model's own observable
+   passes the decision procedure or has the D10 signature *)
+Theorem c14_wire_main : forall inp, input_guard inp = true ->
+  prop_case inp (run_case inp) = 0 \/ finding_sig inp (run_case inp) = 1.
 Proof. exact wire_main. Qed.
 Print Assumptions c14_wire_main.
 
@@ -108,11 +109,12 @@ Theorem c14_rule_fresh : forall k,
 Proof. exact rule_fresh. Qed.
 Print Assumptions c14_rule_fresh.
 
-(* ... a later one may not: 1.12 -> 1.13 differs by less than 0.01 in float64 and is ignored *)
-Theorem c14_rule_follows_node_refuted :
-  exists prev k, configured [prev; k] = k /\ 100 < k /\ ratio_of_state (rule_after [prev; k]) = prev /\ prev <> k.
-Proof. exact rule_stale_refuted. Qed.
-Print Assumptions c14_rule_follows_node_refuted.
+(* a later one takes effect whenever it differs from the stored one by at least 0.02 *)
+Theorem c14_rule_follows_node : forall prev k,
+  1 <= prev < 2 ^ 40 -> 1 <= k < 2 ^ 40 -> 2 <= Z.abs (prev - k) ->
+  ratio_of_state (rule_after [prev; k]) = configured [prev; k].
+Proof. exact rule_follows. Qed.
+Print Assumptions c14_rule_follows_node.
 
 (* non-vacuity: hypotheses are satisfiable and the clauses are exercised *)
 Example c14_nonvacuous_main :
@@ -130,3 +132,9 @@ Example c14_nonvacuous_unlimited :
 Proof. vm_compute. reflexivity. Qed.
 Example c14_nonvacuous_non_be : be (cfg_of_codes 4 0 150) = false /\ be (cfg_of_codes 1 0 150) = true.
 Proof. vm_compute. split; reflexivity. Qed.
+(* observation (outside the property's quantifier, see findings/C14-stale-normalization-ratio.md):
+   the hypothesis 2 <= |prev - k| of c14_rule_follows_node cannot be dropped — a one-step change
+   1.12 -> 1.13 is below the rule's 0.01 hysteresis in float64 and the rule keeps 1.12 *)
+Example c14_rule_one_step_observation :
+  exists prev k, configured [prev; k] = k /\ 100 < k /\ ratio_of_state (rule_after [prev; k]) = prev /\ prev <> k.
+Proof. exact rule_stale_refuted. Qed.
